@@ -769,6 +769,24 @@ func registerImportChecks() {
 		for _, p := range pk {
 			one("C18-one-"+p, []string{p}, false)
 			one("C18-onep-"+p, []string{p}, true)
+			// every other way a std path gets into the table before it is referenced: a blank
+			// import (`_ "embed"`, image/png, net/http/pprof … are used both ways), ImportName with
+			// the declared name, a fragment rendered with the File first
+			for v := 0; v < 3; v++ {
+				c := &Case{ID: fmt.Sprintf("C18-pre-%s-%d", p, v)}
+				c.Ops = append(c.Ops, Op{Kind: OpFile, F: 0, Str: []string{"new", "", "p"}})
+				switch v {
+				case 0:
+					c.Ops = append(c.Ops, Op{Kind: OpAnon, F: 0, Str: []string{p}})
+				case 1:
+					c.Ops = append(c.Ops, Op{Kind: OpHintName, F: 0, Str: []string{p, stdDeclName(p)}})
+				default:
+					c.Ops = append(c.Ops, Op{Kind: OpStmt, S: 1, Items: []SItem{id("_"), op("="), Qual{Path: p, Name: qName(0)}}}, Op{Kind: OpFrag, S: 1, F: 0})
+				}
+				c.Ops = append(c.Ops, Op{Kind: OpFAdd, F: 0, Args: []Arg{st(kw("Var"), id("_"), op("="), Qual{Path: p, Name: qName(0)})}})
+				c.Ops = append(c.Ops, Op{Kind: OpRender, F: 0})
+				cs = append(cs, c)
+			}
 		}
 		npairs := 0
 		for _, ps := range byName {
